@@ -29,7 +29,19 @@ fn ip_bytes(a: IpAddr) -> Vec<u8> {
     }
 }
 
-fn observe_mp(c: &Case) -> reader::Obs {
+/// zero the timestamps (first four octets of every record) so that two encodings can be compared
+fn without_timestamps(raw: &[u8]) -> Vec<u8> {
+    let mut v = raw.to_vec();
+    let mut off = 0usize;
+    while off + 12 <= v.len() {
+        let len = u32::from_be_bytes([v[off + 8], v[off + 9], v[off + 10], v[off + 11]]) as usize;
+        v[off..off + 4].copy_from_slice(&[0; 4]);
+        off += 12 + len;
+    }
+    v
+}
+
+fn observe_mp(c: &Case, shared: &mut mrt::MrtCodec) -> reader::Obs {
     let fam = mc_family(&c.fam);
     let src = mc_source(&c.peer, &c.local);
     let entries = mc_entries(fam, &c.count, c.addpath);
@@ -55,9 +67,27 @@ fn observe_mp(c: &Case) -> reader::Obs {
         Ok(Err(e)) => return reader::Obs::failed("error", &format!("{e:?}")),
         Ok(Ok(())) => {}
     }
+    // the same event through the long-lived codec of a dump file, right after an event of the same family with the
+    // opposite add-path setting
+    let mut shared_buf = bytes::BytesMut::new();
+    let _ = catch_unwind(AssertUnwindSafe(|| {
+        let adverse = AdjRibInChange {
+            source: src.clone(),
+            family: fam,
+            addpath: !c.addpath,
+            nlris: mc_entries(fam, "one", !c.addpath),
+            attrs: Some(mc_attrs("small")),
+            nexthop: mc_nexthop(fam, if fam == Family::IPV6 { "v6" } else { "v4" }),
+            timestamp: 1,
+        };
+        let mut scratch = bytes::BytesMut::new();
+        let _ = shared.encode(&adj_rib_in_to_mrt(&adverse), &mut scratch);
+        let _ = shared.encode(&adj_rib_in_to_mrt(&change), &mut shared_buf);
+    }));
     // the encoder may write several records for one event: walk them by their length fields
     let mut o = reader::Obs::new();
     let raw = buf.to_vec();
+    o.stateless = without_timestamps(&raw) == without_timestamps(&shared_buf);
     let mut off = 0usize;
     let mut all_pdus = Vec::new();
     while off < raw.len() {
@@ -337,11 +367,12 @@ async fn c19_mrt_records() {
     let mut out = std::io::BufWriter::new(std::fs::File::create(outp).unwrap());
     let hook = std::panic::take_hook();
     std::panic::set_hook(Box::new(|_| {}));
+    let mut shared = mrt::MrtCodec::new();
     for line in std::io::BufReader::new(std::fs::File::open(inp).unwrap()).lines() {
         let line = line.unwrap();
         let Some(c) = parse_case(&line) else { continue };
         let o = match c.k.as_str() {
-            "mrt" => observe_mp(&c),
+            "mrt" => observe_mp(&c, &mut shared),
             "td" => observe_td(&c, &work).await,
             _ => continue,
         };
